@@ -59,6 +59,32 @@ def findings_below(r, limit, view):
     return res
 
 
+def extremes(s, case, rng, every):
+    if case % 3 == 0:
+        # headers with an out-of-range data format byte (an [E10] in the full run): the end-of-input messages of the reader quote the header too
+        for lp in s.pkts:
+            for j, p in enumerate(lp[1:]):
+                if j == 0 or rng.random() < 0.3:
+                    p.f["data_format"] = rng.choice([1, 3, 255])
+    if case % 3 == 1 and not every:
+        # extreme payload sizes: RDH-only packets (payload of 0 bytes) and payloads of exactly 10 000 bytes (the documented maximum), with cuts at and inside them
+        cand = [(l, i) for l, lp in enumerate(s.pkts) for i in range(1, len(lp))]
+        rng.shuffle(cand)
+        for l, i in cand[:2]:
+            q = s.pkts[l][i]
+            q.words, q.pad = [], 0
+        for l, i in cand[2:4]:
+            q = s.pkts[l][i]
+            if q.words:
+                n = 625 if s.fmt == 0 else 1000
+                k = min(len(q.words) - 1, 2)
+                filler = next((w for w in q.words if w[0] == "DATA"), q.words[k])
+                while len(q.words) < n:
+                    q.words.insert(k, [filler[0], filler[1]])
+                del q.words[n:]
+                q.pad = 0
+
+
 def one_job(args):
     exe, wd, seed, case, tier, every = args
     rng = rng_for(seed, case)
@@ -68,12 +94,7 @@ def one_job(args):
     if list(MODES)[case % 5].startswith("check") and s.pkts[0] and len(s.pkts[0]) > 1:
         # check modes: always some finding early in the stream, so that findings about complete packets exist for nearly every cut
         s.pkts[0][1].f["bc"] = 0xFFF
-    if case % 3 == 0:
-        # headers with an out-of-range data format byte (an [E10] in the full run): the end-of-input messages of the reader quote the header too
-        for lp in s.pkts:
-            for j, p in enumerate(lp[1:]):
-                if j == 0 or rng.random() < 0.3:
-                    p.f["data_format"] = rng.choice([1, 3, 255])
+    extremes(s, case, rng, every)
     data = s.serialize()
     if every and len(data) > 12000:
         s = gen.generate(rng.getrandbits(40), n_links=1, hbfs=1, hits="none", max_triggers=1, max_pages=1)
@@ -87,6 +108,7 @@ def one_job(args):
     if (case // 10) % 2 == 1:
         if len(s.links) < 2:
             s = gen.generate(rng.getrandbits(40), n_links=rng.choice([2, 3]), hbfs=rng.choice([1, 2]), hits=rng.choice(["none", "few"]), merge=rng.choice(["roundrobin", "random"]))
+            extremes(s, case, rng, every)
             data = s.serialize()
             walk = R.walk(data)
         flt = ("link", rng.choice(s.links).link_id)
@@ -153,6 +175,11 @@ def one_job(args):
                     missing = [x for x in a if x not in b]
                     what = "findings differ on the intact prefix (%d bytes): %d only in the truncated run, %d only in the full run; e.g. %s" % (
                         limit, len(extra), len(missing), str((extra or missing)[0])[:160])
+                elif not view and limit == c and c > 0:
+                    # the input ends exactly at a packet boundary: there is no incomplete final packet, so no reader message about one ([E100]/[E101]) may appear
+                    ghost = [m for m in (r.reported() or []) if m.code in ("100", "101")]
+                    if ghost:
+                        what = "spurious end-of-input error: the input ends exactly at a packet boundary, yet: %s" % ghost[0].text[:120]
         if what:
             d = save_replay("C18", "case%d" % case, {"input.raw": data, "cut.raw": data[:c], "stderr.txt": r.stderr, "stdout.txt": r.stdout, "full.stderr.txt": full.stderr},
                             dict(seed=seed, case=case, cut=c, argv=argv_tail, pipe=pipe, what=what))
